@@ -110,7 +110,7 @@ FLAGS = {"Perm": Perm, "IPerm": IPerm}
 SCALARS = {
     "int": int, "float": float, "str": str, "bool": bool, "None": None, "Any": Any, "object": object,
     "Decimal": Decimal, "Fraction": Fraction, "complex": complex,
-    "bytes": bytes, "bytearray": bytearray, "ByteString": typing.ByteString, "BytesIO": io.BytesIO,
+    "bytes": bytes, "bytearray": bytearray, "ByteString": typing.ByteString, "BytesIO": io.BytesIO, "IOBytes": typing.IO[bytes],
     "date": dt.date, "time": dt.time, "datetime": dt.datetime, "timedelta": dt.timedelta,
     "UUID": uuid.UUID, "IPv4Address": ipaddress.IPv4Address, "IPv6Network": ipaddress.IPv6Network,
     "IPv4Interface": ipaddress.IPv4Interface,
@@ -244,7 +244,7 @@ def depth(ts):
 # hashability of loaded values (Set elements / dict keys are only generated for these)
 
 UNHASHABLE_RESULT = {"List", "list", "Set", "Deque", "MutableSequence", "MutableSet", "Dict", "Mapping",
-                     "MutableMapping", "DefaultDict", "bytearray", "BytesIO"}
+                     "MutableMapping", "DefaultDict", "bytearray", "BytesIO", "IOBytes"}
 
 
 def result_hashable(ts):
@@ -474,6 +474,14 @@ assert len(A0_BY_NAME) == len(A0)
 
 _TZ = dt.timezone(dt.timedelta(hours=5, minutes=30))
 
+def _bio(data, pos):
+    b = io.BytesIO()
+    b.write(data)
+    if pos is not None:
+        b.seek(pos)
+    return b
+
+
 VALUES = {
     "int": [0, 1, -1, 2**70],
     "float": [0.0, -0.0, 1.5, -1.5, 1e308, 5e-324, float("nan"), float("inf")],
@@ -488,7 +496,9 @@ VALUES = {
     "bytes": [b"", b"\xff\x00", b"ab"],
     "bytearray": [bytearray(b""), bytearray(b"\xff\x00")],
     "ByteString": [b"", b"ab"],
-    "BytesIO": [],   # not comparable by ==; handled specially
+    # streams at the start, in the middle and at the end (as left by write()); compared by content (ref_types.same)
+    "BytesIO": [_bio(b"", 0), _bio(b"ab", 0), _bio(b"abcd", 2), _bio(b"\xff\x00", None)],
+    "IOBytes": [_bio(b"", 0), _bio(b"ab", 0), _bio(b"abcd", 2), _bio(b"\xff\x00", None)],
     "date": [dt.date.min, dt.date.max, dt.date(2020, 2, 29)],
     "time": [dt.time(1, 2, 3, 456789), dt.time(0, 0), dt.time(23, 59, 59, 999999, tzinfo=_TZ)],
     "datetime": [dt.datetime(2020, 1, 2, 3, 4, 5, 678901), dt.datetime(2020, 1, 2, 3, 4, 5, 1, tzinfo=_TZ),
